@@ -1368,6 +1368,14 @@ def _hm_get(M, fr, n, a):
     r = a[0]
     while isinstance(M.get(r.cell, r.path), Ref): r = M.get(r.cell, r.path)
     return some(Ref(r.cell, r.path + (('i', i), ('f', 1))))
+@reg(r'^<std::collections::(HashMap|BTreeMap)<.*> as std::ops::Index<.*>>::index$')
+def _hm_index(M, fr, n, a):
+    # map[&key]: a reference to the value, panics when the key is absent
+    hm = D(M, a[0]); i = hm_lookup(M, fr, hm, a[1])
+    if i < 0: raise Panic('key not found in map (Index on a HashMap)')
+    r = a[0]
+    while isinstance(M.get(r.cell, r.path), Ref): r = M.get(r.cell, r.path)
+    return Ref(r.cell, r.path + (('i', i), ('f', 1)))
 @reg(r'^std::collections::(HashMap|BTreeMap)::contains_key$')
 def _hm_contains_key(M, fr, n, a):
     hm = D(M, a[0]); res = False
